@@ -24,7 +24,7 @@
 (*    its per-step outcome compared with the observation; a difference      *)
 (*    prints <<"DRIFT", trace, step, model, observed>>.                     *)
 (***************************************************************************)
-EXTENDS Resolve, SequencesExt, FiniteSetsExt, Json, IOUtils
+EXTENDS Resolve, SequencesExt, FiniteSetsExt, Json, IOUtils, Hits
 
 Data   == JsonDeserialize(IOEnv.TRACE_FILE)
 Conv(a) == [k |-> a.k, rv |-> a.rv, pg |-> a.pg, pl |-> ToSet(a.pl), df |-> ToSet(a.df),
@@ -46,7 +46,7 @@ Len0(s) == Len(s)
 -----------------------------------------------------------------------------
 (* ---------- ground truth from the abstract citations (property text) ----- *)
 EqFull(c, d) ==
-    \/ (c.k = "fc" /\ d.k = "fc" /\ c.rv = d.rv /\ c.pg = d.pg /\ c.pg # NoPage /\ c.id = d.id)
+    \/ (c.k = "fc" /\ d.k = "fc" /\ c.rv = d.rv /\ c.pg = d.pg /\ c.pg # NoPage /\ c.id = d.id)   \* (id: text of a TextPages page)
     \/ (c.k \in {"fl", "fj"} /\ c.k = d.k /\ c.id = d.id /\ c.pg = d.pg)
 (* representative (first equal full citation) of full position p *)
 Rep(cs, p) == CHOOSE q \in 1..p : /\ (q = p \/ EqFull(cs[q], cs[p]))
@@ -80,6 +80,7 @@ Cands(cs, g, i) ==
                  ELSE IF cs[h].pg = NoPage THEN {}              \* placeholder-page antecedent
                  ELSE IF c.pin = NoPin \/ cs[h].pg \in {NoGroup, NonNumeric} THEN {Rep(cs, h)}
                  ELSE IF c.pin = BadPin THEN {}
+                 ELSE IF cs[h].pg \in {Big, Huge} THEN {}           \* the pin cite lies before the first page
                  ELSE IF c.pin < cs[h].pg \/ c.pin > cs[h].pg + M THEN {}
                  ELSE {Rep(cs, h)}
        [] OTHER -> {}
@@ -98,9 +99,9 @@ NonEmptyIdx(g, k) == SelectSeq([j \in DOMAIN g |-> j],
 Increasing(s)  == \A a, b \in DOMAIN s : a < b => s[a] < s[b]
 
 (* ---------- the monitors: one named clause per sentence of the property --- *)
-Clauses == {"C04.noraise", "C06.sameobjects", "C06.disjoint", "C06.order", "C06.headfull",
-            "C06.fullonce", "C06.shareiff", "C06.unknown", "C07.neverguess",
-            "C07.idpredecessor", "C08.prefix", "C08.backwards"}
+ClauseSeq == <<"C04.noraise", "C06.sameobjects", "C06.disjoint", "C06.order", "C06.headfull", "C06.fullonce", "C06.shareiff", "C06.unknown", "C07.neverguess", "C07.idpredecessor", "C08.prefix", "C08.backwards">>
+Clauses == {ClauseSeq[ci] : ci \in DOMAIN ClauseSeq}
+ASSUME PrintT(<<"CLAUSES", ToJson(ClauseSeq)>>)
 
 Holds(cl, t) ==
   LET cs == C(t)  g == G(t)  n == Len(cs)  r == Traces[t].r IN
@@ -167,8 +168,27 @@ TSpec == TInit /\ [][TNext]_tvars
 
 ModelHead == IF joined = NoRes THEN 0 ELSE hidx[joined]
 
+(* non-vacuity of each clause on trace t (Hits.tla) *)
+Exercised(cl, t) ==
+  LET cs == C(t)  g == G(t)  n == Len(cs) IN
+  IF cl = "C04.noraise" THEN TRUE
+  ELSE IF Traces[t].r # "" THEN FALSE
+  ELSE CASE cl \in {"C06.sameobjects", "C06.headfull"} -> Len(g) >= 1
+    [] cl = "C06.disjoint"  -> Len(g) >= 2
+    [] cl = "C06.order"     -> \E j \in DOMAIN g : Len(g[j].m) >= 2
+    [] cl = "C06.fullonce"  -> FullPos(cs, n) # {}
+    [] cl = "C06.shareiff"  -> \* both directions: an equal pair and an unequal pair of full citations
+                               /\ \E q1, q2 \in FullPos(cs, n) : q1 < q2 /\ EqFull(cs[q1], cs[q2])
+                               /\ \E q1, q2 \in FullPos(cs, n) : q1 < q2 /\ ~EqFull(cs[q1], cs[q2])
+    [] cl = "C06.unknown"   -> \E q \in 1..n : cs[q].k = "un"
+    [] cl = "C07.neverguess" -> \E q \in 1..n : ~IsFull(cs[q]) /\ cs[q].k # "rx" /\ GroupOf(g, q) # 0
+    [] cl = "C07.idpredecessor" -> \E q \in 1..n : cs[q].k = "id" /\ GroupOf(g, q) # 0
+    [] cl = "C08.prefix"    -> n >= 2 /\ Len(g) >= 1
+    [] cl = "C08.backwards" -> \E q \in 1..n : ~IsFull(cs[q]) /\ GroupOf(g, q) # 0
+    [] OTHER -> FALSE
 (* evaluated in every state; always TRUE, reports by printing (total monitor) *)
-Judge == (tid # 0 /\ l = 1) => \A cl \in Clauses : Holds(cl, tid) \/ PrintT(<<"FAIL", tid, cl>>)
+Judge == (tid # 0 /\ l = 1) => (/\ \A cl \in Clauses : Holds(cl, tid) \/ PrintT(<<"FAIL", tid, cl>>)
+   /\ PrintT(<<"HIT", tid, Mask([ci \in DOMAIN ClauseSeq |-> Exercised(ClauseSeq[ci], tid)])>>))
 Conform ==
     /\ (tid # 0 /\ l > 1 /\ err = "none" /\ Traces[tid].r = "") =>
           (ModelHead = ObsHead(tid, l-1) \/ PrintT(<<"DRIFT", tid, l-1, ModelHead, ObsHead(tid, l-1)>>))
